@@ -420,8 +420,7 @@ def monthly2daily(se, interpolation="flat", minthreshold=0.):
         yy = np.diff(yyc, axis=1).ravel()
         yy = yy[~np.isnan(yy)]
 
-        end = start + delta(days=len(yy))
-        days = pd.date_range(start, end-delta(days=1))
+        days = pd.date_range(start, periods=len(yy), freq="D")
         sed = pd.Series(yy, index=days)
 
     else:
